@@ -26,7 +26,7 @@ fn main() {
 
 // ------------------------------------------------------------------ the query fragment (Model/SortQuery.v)
 #[derive(Clone, Debug, PartialEq)]
-enum KExpr { Col(usize), Int(i64), Bin(ArithOp, Box<KExpr>, Box<KExpr>), Neg(Box<KExpr>) }
+enum KExpr { Col(usize), Int(i64), Bin(ArithOp, Box<KExpr>, Box<KExpr>), Neg(Box<KExpr>), Abs(Box<KExpr>) }
 #[derive(Clone, Debug, PartialEq)]
 enum Key { Col(usize, bool), Alias(usize), Expr(KExpr) }
 #[derive(Clone, Debug, PartialEq)]
@@ -41,6 +41,7 @@ impl KExpr {
             KExpr::Int(i) => format!("{}", i),
             KExpr::Bin(op, a, b) => format!("({} {} {})", a.sql(), op.sql(), b.sql()),
             KExpr::Neg(a) => format!("(-{})", a.sql()),
+            KExpr::Abs(a) => format!("ABS({})", a.sql()),
         }
     }
     fn coq(&self) -> String {
@@ -49,6 +50,7 @@ impl KExpr {
             KExpr::Int(i) => format!("(XInt {})", z(*i)),
             KExpr::Bin(op, a, b) => format!("(XBin {} {} {})", op.coq(), a.coq(), b.coq()),
             KExpr::Neg(a) => format!("(XNeg {})", a.coq()),
+            KExpr::Abs(a) => format!("(XAbs {})", a.coq()),
         }
     }
     fn line(&self) -> String {
@@ -57,6 +59,7 @@ impl KExpr {
             KExpr::Int(i) => format!("i{}", i),
             KExpr::Bin(op, a, b) => format!("{}({},{})", match op { ArithOp::Add => 'A', ArithOp::Sub => 'S', ArithOp::Mul => 'M' }, a.line(), b.line()),
             KExpr::Neg(a) => format!("N({})", a.line()),
+            KExpr::Abs(a) => format!("B({})", a.line()),
         }
     }
     fn parse(s: &[u8], pos: &mut usize) -> Option<KExpr> {
@@ -81,22 +84,22 @@ impl KExpr {
                 let op = match ch { b'A' => ArithOp::Add, b'S' => ArithOp::Sub, _ => ArithOp::Mul };
                 Some(KExpr::Bin(op, Box::new(a), Box::new(b)))
             }
-            b'N' => {
+            b'N' | b'B' => {
                 if *s.get(*pos)? != b'(' { return None; }
                 *pos += 1;
                 let a = KExpr::parse(s, pos)?;
                 if *s.get(*pos)? != b')' { return None; }
                 *pos += 1;
-                Some(KExpr::Neg(Box::new(a)))
+                Some(if ch == b'N' { KExpr::Neg(Box::new(a)) } else { KExpr::Abs(Box::new(a)) })
             }
             _ => None,
         }
     }
     fn cols(&self, out: &mut Vec<usize>) {
-        match self { KExpr::Col(c) => out.push(*c), KExpr::Int(_) => {}, KExpr::Bin(_, a, b) => { a.cols(out); b.cols(out); } KExpr::Neg(a) => a.cols(out) }
+        match self { KExpr::Col(c) => out.push(*c), KExpr::Int(_) => {}, KExpr::Bin(_, a, b) => { a.cols(out); b.cols(out); } KExpr::Neg(a) | KExpr::Abs(a) => a.cols(out) }
     }
-    fn has_neg(&self) -> bool {
-        match self { KExpr::Neg(_) => true, KExpr::Bin(_, a, b) => a.has_neg() || b.has_neg(), _ => false }
+    fn has_fn(&self) -> bool {
+        match self { KExpr::Abs(_) => true, KExpr::Bin(_, a, b) => a.has_fn() || b.has_fn(), KExpr::Neg(a) => a.has_fn(), _ => false }
     }
     /// reference value (SqlSpec.eval of to_expr): None = undefined
     fn eval(&self, r: &[Val]) -> Option<Val> {
@@ -105,6 +108,7 @@ impl KExpr {
             KExpr::Int(i) => Some(Val::Int(*i)),
             KExpr::Bin(op, a, b) => arith(*op, a.eval(r)?, b.eval(r)?),
             KExpr::Neg(a) => arith(ArithOp::Sub, Val::Int(0), a.eval(r)?),
+            KExpr::Abs(a) => match a.eval(r)? { Val::Int(x) => x.checked_abs().map(Val::Int), Val::Null => Some(Val::Null), _ => None },
         }
     }
 }
@@ -393,32 +397,14 @@ fn result_chk(q: &Query, b: &[Elt], rows: &[Vec<Val>]) -> bool {
 
 /// rough tag of the recorded finding classes (search mode / statistics only; authoritative:
 /// known_class_case in Model/SortImpl.v)
-fn rough_class(t: &Table, q: &Query) -> u32 {
-    let k = rough_class_q(t.cols.len(), q);
-    if k != 0 { return k; }
-    if q.distinct {
-        let oc = q.out_cols(t.cols.len());
-        let negzero = t.rows.iter().any(|r| {
-            if let Some(w) = q.wher { match r.get(0) { Some(Val::Int(i)) if *i > w => {}, _ => return false } }
-            oc.iter().any(|c| matches!(r.get(*c), Some(Val::Float(b)) if *b == 1u64 << 63))
-        });
-        if negzero { return 7; }
-    }
-    0
-}
+fn rough_class(t: &Table, q: &Query) -> u32 { rough_class_q(t.cols.len(), q) }
 fn rough_class_q(ncols: usize, q: &Query) -> u32 {
+    // a DISTINCT statement is executed without its LIMIT / OFFSET (exec_q)
+    let strip = q.distinct && (q.limit.is_some() || q.offset.is_some());
+    let limit = if strip { None } else { q.limit };
     let has_order = !q.keys.is_empty();
-    let has_window = q.limit.is_some() || q.offset.is_some();
     let expr_key = q.keys.iter().any(|(k, _)| matches!(k, Key::Expr(_)));
-    match &q.sel {
-        Sel::Star => { if has_order && q.limit.is_none() && expr_key { return 6; } }
-        Sel::List(l) => {
-            if !has_order && !has_window && q.wher.is_none() {
-                return if l.iter().enumerate().all(|(i, (c, _))| *c == i) { 0 } else { 5 };
-            }
-        }
-    }
-    if q.distinct && has_window { return 4; }
+    if let Sel::Star = &q.sel { if has_order && limit.is_none() && expr_key { return 6; } }
     let items: Vec<(usize, bool)> = match &q.sel { Sel::Star => vec![], Sel::List(l) => l.clone() };
     let has_col = |c: usize| items.iter().any(|(x, _)| *x == c);
     let has_plain = |c: usize| items.iter().any(|(x, al)| *x == c && !*al);
@@ -427,7 +413,7 @@ fn rough_class_q(ncols: usize, q: &Query) -> u32 {
         Key::Alias(i) => matches!(items.get(*i), Some((_, true))),
         Key::Expr(e) => { let mut cs = vec![]; e.cols(&mut cs); cs.iter().all(|c| has_col(*c)) }
     };
-    let above = if q.limit.is_some() { q.keys.iter().all(|(k, _)| projected(k)) } else { !expr_key };
+    let above = if limit.is_some() { q.keys.iter().all(|(k, _)| projected(k)) } else { !expr_key };
     for (k, _) in &q.keys {
         if key_den(ncols, q, k).is_none() { continue; }
         match k {
@@ -435,8 +421,8 @@ fn rough_class_q(ncols: usize, q: &Query) -> u32 {
             Key::Alias(_) => { if !above { return 1; } }
             Key::Expr(KExpr::Int(_)) => return 2,
             Key::Expr(e) => {
-                if e.has_neg() { return 3; }
-                if above { let mut cs = vec![]; e.cols(&mut cs); if !cs.iter().all(|c| has_plain(*c)) { return 3; } }
+                if above { let mut cs = vec![]; e.cols(&mut cs); if !cs.iter().all(|c| has_plain(*c)) { return 1; } }
+                if e.has_fn() { return 3; }
             }
         }
     }
@@ -582,7 +568,13 @@ fn shape_of(q: &Query) -> String {
     s
 }
 fn path_of(q: &Query) -> &'static str {
-    if q.keys.is_empty() { if q.limit.is_some() || q.offset.is_some() { "path:LimitExec" } else { "path:Project(+DISTINCT pass)" } }
+    let has_window = q.limit.is_some() || q.offset.is_some();
+    if q.distinct {
+        // a DISTINCT statement is executed without its window; the DISTINCT pass applies it
+        return if q.keys.is_empty() { if has_window { "path:Project+DISTINCT pass+window" } else { "path:Project+DISTINCT pass" } }
+               else if has_window { "path:SortExec+DISTINCT pass+window" } else { "path:SortExec+DISTINCT pass" };
+    }
+    if q.keys.is_empty() { "path:LimitExec" }
     else if q.limit.is_some() { "path:TopKExec" }
     else if q.offset.is_some() { "path:SortExec+LimitExec" } else { "path:SortExec" }
 }
@@ -730,13 +722,14 @@ fn gen_kexpr(rng: &mut Rng, int_cols: &[usize], all_cols: usize, depth: usize, a
         return if rng.chance(2, 3) { KExpr::Col(pick_col(rng)) } else { KExpr::Int(rng.below(4) as i64) };
     }
     if allow_neg && rng.chance(1, 6) { return KExpr::Neg(Box::new(gen_kexpr(rng, int_cols, all_cols, depth - 1, allow_neg, any_col))); }
+    if any_col && rng.chance(1, 8) { return KExpr::Abs(Box::new(gen_kexpr(rng, int_cols, all_cols, depth - 1, allow_neg, any_col))); }
     let op = *rng.pick(&[ArithOp::Add, ArithOp::Sub, ArithOp::Mul]);
     KExpr::Bin(op, Box::new(gen_kexpr(rng, int_cols, all_cols, depth - 1, allow_neg, any_col)), Box::new(gen_kexpr(rng, int_cols, all_cols, depth - 1, allow_neg, any_col)))
 }
 
 /// `safe`: stay inside the fragment where TurDB is expected to be right (every key a plain
-/// column of the select list or its alias, no ordinals / expressions with unary minus, no DISTINCT
-/// together with LIMIT / OFFSET, a WHERE or an id-prefix select list when there is nothing else)
+/// column of the select list or its alias, or an integer expression over plainly selected columns;
+/// no ordinals, no function calls, no ORDER BY over `*`)
 fn gen_query(rng: &mut Rng, t: &Table, safe: bool) -> Query {
     let ncols = t.cols.len();
     let n = t.rows.len() as i64;
@@ -782,7 +775,7 @@ fn gen_query(rng: &mut Rng, t: &Table, safe: bool) -> Query {
                 9..=10 => { let al: Vec<usize> = items.iter().enumerate().filter(|(_, it)| it.1).map(|(i, _)| i).collect();
                             if al.is_empty() { Key::Col(1 + rng.below(ncols as u64 - 1) as usize, false) } else { Key::Alias(*rng.pick(&al)) } }
                 11..=12 => Key::Expr(KExpr::Int(rng.range(1, ncols as i64 + 1))),
-                _ => { let depth = 1 + rng.below(2) as usize; let any = rng.chance(1, 6);
+                _ => { let depth = 1 + rng.below(2) as usize; let any = rng.chance(1, 3);
                        let e = gen_kexpr(rng, &int_cols, ncols, depth, true, any);
                        if let KExpr::Col(c) = e { Key::Col(c, false) } else { Key::Expr(e) } }
             }
@@ -794,7 +787,8 @@ fn gen_query(rng: &mut Rng, t: &Table, safe: bool) -> Query {
         if !keys.is_empty() && !int_cols.is_empty() && rng.chance(1, 5) {
             let plain: Vec<usize> = int_cols.iter().copied().filter(|c| items.iter().any(|(x, al)| x == c && !*al)).collect();
             if !plain.is_empty() {
-                let e = gen_kexpr(rng, &plain, ncols, 1, false, false);
+                let depth = 1 + rng.below(2) as usize;
+                let e = gen_kexpr(rng, &plain, ncols, depth, true, false);
                 if !matches!(e, KExpr::Col(_) | KExpr::Int(_)) { let i = rng.below(keys.len() as u64) as usize; keys[i].0 = Key::Expr(e); }
             }
         }
@@ -803,14 +797,9 @@ fn gen_query(rng: &mut Rng, t: &Table, safe: bool) -> Query {
     let pick_n = |rng: &mut Rng| -> i64 {
         match rng.below(12) { 0 => 0, 1 => n, 2 => n + 1 + rng.below(3) as i64, 3 => 1, 4 => (n - 1).max(0), 5 => *rng.pick(&[1000i64, 100000]), _ => rng.range(0, n.max(1)) }
     };
-    let (mut limit, mut offset) = match rng.below(10) { 0..=2 => (None, None), 3..=5 => (Some(pick_n(rng)), None), 6..=8 => (Some(pick_n(rng)), Some(pick_n(rng))), _ => (None, Some(pick_n(rng))) };
+    let (limit, mut offset) = match rng.below(10) { 0..=2 => (None, None), 3..=5 => (Some(pick_n(rng)), None), 6..=8 => (Some(pick_n(rng)), Some(pick_n(rng))), _ => (None, Some(pick_n(rng))) };
     if let (Some(l), Some(o)) = (limit, offset) { if rng.chance(1, 6) { offset = Some((n - l).max(0)); let _ = o; } }
-    if safe && distinct { limit = None; offset = None; }
-    let mut wher = if rng.chance(1, 4) { Some(rng.range(-1, n)) } else { None };
-    if safe && keys.is_empty() && limit.is_none() && offset.is_none() {
-        // nothing but DISTINCT: keep out of the double projection unless the list is an id-prefix
-        if let Sel::List(l) = &sel { if !l.iter().enumerate().all(|(i, (c, _))| *c == i) { wher = Some(rng.range(-1, 1)); } }
-    }
+    let wher = if rng.chance(1, 4) { Some(rng.range(-1, n)) } else { None };
     let distinct = if keys.is_empty() && limit.is_none() && offset.is_none() { true } else { distinct };
     Query { distinct, sel, wher, keys, limit, offset }
 }
@@ -843,6 +832,7 @@ fn structured(w: &mut CaseWriter, sut: &mut Sut, rng: &mut Rng, thorough: bool) 
     // every single key and every ordered pair of keys, both directions, over the full select list
     for c1 in 1..4usize { for a1 in [true, false] {
         for (l, o) in &windows {
+            if !thorough && !rng.chance(1, 3) { continue; }
             emit(w, sut, &t, &Query { distinct: false, sel: all.clone(), wher: None, keys: vec![(Key::Col(c1, false), a1)], limit: *l, offset: *o }, "structured");
         }
         for c2 in 0..4usize { if c2 == c1 { continue; } for a2 in [true, false] {
@@ -853,8 +843,8 @@ fn structured(w: &mut CaseWriter, sut: &mut Sut, rng: &mut Rng, thorough: bool) 
     // windows without ORDER BY
     for (l, o) in &windows {
         if l.is_none() && o.is_none() { continue; }
-        emit(w, sut, &t, &Query { distinct: false, sel: all.clone(), wher: None, keys: vec![], limit: *l, offset: *o }, "structured");
-        emit(w, sut, &t, &Query { distinct: false, sel: Sel::Star, wher: Some(2), keys: vec![], limit: *l, offset: *o }, "structured");
+        if thorough || rng.chance(1, 2) { emit(w, sut, &t, &Query { distinct: false, sel: all.clone(), wher: None, keys: vec![], limit: *l, offset: *o }, "structured"); }
+        if thorough || rng.chance(1, 2) { emit(w, sut, &t, &Query { distinct: false, sel: Sel::Star, wher: Some(2), keys: vec![], limit: *l, offset: *o }, "structured"); }
     }
     // DISTINCT over every column subset shape, alone and ordered
     for cols in [vec![1usize], vec![2], vec![3], vec![1, 3], vec![3, 1], vec![1, 2], vec![0, 1], vec![1, 2, 3]] {
@@ -883,7 +873,7 @@ fn structured(w: &mut CaseWriter, sut: &mut Sut, rng: &mut Rng, thorough: bool) 
         for keys in keysets {
             for (l, o) in [(None, None), (Some(2), None), (Some(2), Some(1)), (None, Some(2)), (Some(0), None), (Some(50), Some(0))] {
                 for wher in [None, Some(3)] {
-                    if wher.is_some() && !thorough && rng.chance(2, 3) { continue; }
+                    if !thorough && (wher.is_some() || !rng.chance(1, 3)) { continue; }
                     emit_group(w, sut, &t, &GQuery { cols: cols.clone(), wher, keys: keys.clone(), limit: l, offset: o }, "structured");
                 }
             }
@@ -907,6 +897,9 @@ fn structured(w: &mut CaseWriter, sut: &mut Sut, rng: &mut Rng, thorough: bool) 
         (idc1.clone(), vec![(Key::Expr(KExpr::Bin(ArithOp::Mul, Box::new(KExpr::Col(1)), Box::new(KExpr::Col(1)))), true), (Key::Col(0, false), false)]),
         (idc1.clone(), vec![(Key::Expr(KExpr::Bin(ArithOp::Sub, Box::new(KExpr::Col(1)), Box::new(KExpr::Col(0)))), true)]),
         (idc1.clone(), vec![(Key::Expr(KExpr::Neg(Box::new(KExpr::Col(1)))), true)]),
+        (idc1.clone(), vec![(Key::Expr(KExpr::Abs(Box::new(KExpr::Col(1)))), true)]),
+        (idc1.clone(), vec![(Key::Expr(KExpr::Bin(ArithOp::Add, Box::new(KExpr::Abs(Box::new(KExpr::Col(1)))), Box::new(KExpr::Col(0)))), false)]),
+        (idc1.clone(), vec![(Key::Expr(KExpr::Neg(Box::new(KExpr::Bin(ArithOp::Mul, Box::new(KExpr::Col(1)), Box::new(KExpr::Col(1)))))), true), (Key::Col(0, false), true)]),
         (idc1.clone(), vec![(Key::Expr(KExpr::Bin(ArithOp::Mul, Box::new(KExpr::Col(1)), Box::new(KExpr::Neg(Box::new(KExpr::Int(1)))))), true)]),
         (idc1.clone(), vec![(Key::Expr(KExpr::Bin(ArithOp::Add, Box::new(KExpr::Col(3)), Box::new(KExpr::Int(1)))), true)]),
         (Sel::List(vec![(0, false)]), vec![(Key::Expr(KExpr::Bin(ArithOp::Add, Box::new(KExpr::Col(1)), Box::new(KExpr::Int(1)))), true)]),
@@ -921,7 +914,7 @@ fn structured(w: &mut CaseWriter, sut: &mut Sut, rng: &mut Rng, thorough: bool) 
     for (sel, keys) in &forms {
         for (l, o) in [(None, None), (Some(3), None), (Some(3), Some(2)), (None, Some(2)), (Some(0), None), (Some(100), None)] {
             for wher in [None, Some(2)] {
-                if wher.is_some() && !thorough && rng.chance(1, 2) { continue; }
+                if !thorough && (wher.is_some() || !(l.is_none() && o.is_none() || rng.chance(2, 5))) { continue; }
                 emit(w, sut, &t, &Query { distinct: false, sel: sel.clone(), wher, keys: keys.clone(), limit: l, offset: o }, "structured");
             }
         }
@@ -945,7 +938,7 @@ fn gen(a: &Args) {
     }
     let mut rng = Rng::new(a.seed);
     structured(&mut w, &mut sut, &mut rng, a.thorough());
-    let (ntables, per_table) = if a.thorough() { (700, 30) } else { (110, 14) };
+    let (ntables, per_table) = if a.thorough() { (700, 30) } else { (45, 12) };
     for k in 0..ntables {
         let flavour = match k % 5 { 0 | 1 | 2 => 0, 3 => 1, _ => 2 };
         let t = gen_table_c15(&mut rng, flavour);
@@ -961,7 +954,7 @@ fn gen(a: &Args) {
             emit(&mut w, &mut sut, &t, &q, &stream);
         }
         // ORDER BY / LIMIT / OFFSET over GROUP BY on the same table
-        for _ in 0..(if a.thorough() { 6 } else { 3 }) {
+        for _ in 0..(if a.thorough() { 6 } else { 2 }) {
             if let Some(g) = gen_gquery(&mut rng, &t) {
                 emit_group(&mut w, &mut sut, &t, &g, match flavour { 0 => "group:dup", 1 => "group:small", _ => "group:wide" });
             }
